@@ -489,7 +489,7 @@ def enumerate_all(h, tmp):
 
     # ---- family 4: seeded random signatures with 4-6 parameters (thorough)
     if h.thorough:
-        for _ in range(1500):
+        for _ in range(5000):
             n = h.rng.randint(4, 6)
             shape = h.rng.choice(shapes(n))
             tss = [h.rng.choice(T) for _ in range(n)]
@@ -591,7 +591,7 @@ def enumerate_all(h, tmp):
                 descr = f"init({describe(init_params)})"
                 plan = f"{'pos' if as_pos else 'opt'}:{','.join(assign)}"
                 case = {"component": "class without methods", "signature": descr, "as_positional": as_pos, "argv": [a.replace(tmp, "<tmp>") for a in argv],
-                        "outcome": res, "calls": [(c[0], c[1]) for c in calls]}
+                        "outcome": res if res[0] != "ok" else ("ok", "instance of " + type(res[1]).__name__), "calls": [(c[0], c[1]) for c in calls]}
                 if exp is None:
                     cx.rejected += 1
                     h.check(res[0] != "ok" and not (res[0] == "exc" and res[1] == "TypeError") and not calls,
@@ -620,7 +620,7 @@ def enumerate_all(h, tmp):
             f"every {step2}th type pair rotation x all 9 assignments; 3 parameters: all 26 shapes x every {step3}th rotation x 8 assignments; "
             f"{nlists} lists, {ndicts} nested dicts (depth <= 3), {nclasses} classes with 1-3 methods (plain/static/class/property) x 7 plans, also inside "
             f"a list and a nested dict; {nclasses // 3} classes without methods and {nclasses // 3} inherited methods; reserved names config/subcommand, a constructor "
-            f"parameter named like a method, a positional-only parameter" + ("; 1500 seeded random signatures with 4-6 parameters x 4 assignments" if h.thorough else ""))
+            f"parameter named like a method, a positional-only parameter" + ("; 5000 seeded random signatures with 4-6 parameters x 4 assignments" if h.thorough else ""))
 
 
 def run_class(cx, cls, cname, init_params, mname, mkind, mparams, salt, path=(), wrapper=None, few=False):
